@@ -188,6 +188,20 @@ def run(res, tier, seed):
         bad = oracle_model(res, ast, m, rng, 0, 4096)
         if bad:
             res.violation("oracle", f"{bad['problem']} on {m!r} at {bad['env']} (accepted by errors(); the id B has two definitions differing in {how})", bad)
+    # a model that is one compound without sub-propositions (constant true or constant false: the sum over nothing is 0); the
+    # documentation asks for a non-empty list, the constructors and errors() accept the empty one
+    for ast0 in ([{"k": "AtLeast", "v": v_, "s": s_, "ch": [], "id": i_} for v_ in (1, 0, -1, 2) for s_ in (None, 1, -1) for i_ in ("E", None)]
+                 + [{"k": k_, "ch": [], "id": "E"} for k_ in ("Any", "All")] + [{"k": "AtMost", "v": v_, "ch": [], "id": "E"} for v_ in (-1, 0, 1)]):
+        try:
+            m = build(ast0)
+            if m.errors():
+                continue
+        except Exception:
+            continue
+        res.count("childless_top_node")
+        bad = oracle_model(res, ast0, m, rng, 0, 16)
+        if bad:
+            res.violation("oracle", f"{bad['problem']} on {m!r} at {bad['env']}", bad)
     # unnamed compounds over DIFFERENT leaves whose generated ids coincide (the id digest joins the child ids without a separator:
     # "ab","c" and "a","bc"; trailing digits against the threshold): one id, two definitions - rejected, or judged as a validated model
     for _ in range(40 if tier == "quick" else 400):
